@@ -267,7 +267,12 @@ class Lib:
     def sf_uf_int(self, ex, node, st):
         """uf_int("name", a, ...): an uninterpreted integer-valued function of integer arguments."""
         name = ex.eval(node.args[0], st)
-        vals = [to_z3(as_int(ex.eval(a, st))) for a in node.args[1:]]
+        vals = []
+        for a in node.args[1:]:
+            v = ex.eval(a, st)
+            if sort_of(v) == "real":      # an integral float (e.g. an epoch read into a float64 array)
+                v = z3.ToInt(to_z3(v)) if is_z3(v) else int(v)
+            vals.append(to_z3(as_int(v)))
         return self.ctx.uf(name, *([I] * len(vals) + [I]))(*vals)
 
     def sf_is_integer(self, ex, node, st):
